@@ -34,7 +34,7 @@ def impl_export2(kp, name, octave):
 def run(chk):
     b = core.standard_build(chk)
     import kernpy as kp
-    octs = list(range(-1, 10))
+    octs = [-2] + list(range(-1, 10))      # one octave below the grid first (hash(-2) == hash(-1) in CPython: tables keyed by a hash)
     if chk.tier == 'thorough' or b.drift or not b.proof_ok or not b.modelrun_ok:
         octs += [-30, -12, 15, 40]
     octs += [chk.rng.randint(-25, 30) for _ in range(2)]
